@@ -198,6 +198,10 @@ pub struct TB(pub u64);
 impl Clone for TA { fn clone(&self) -> Self { unsafe { CA += 1; } TA(self.0) } }
 /// capacity of the harness vectors (Stack<16> of 8-byte elements): destination and source may both be full
 impl Clone for TB { fn clone(&self) -> Self { unsafe { CB += 1; } TB(self.0) } }
+/// same layout as TB, a different type
+pub struct TC(pub u64);
+impl Clone for TC { fn clone(&self) -> Self { unsafe { CA += 1; } TC(self.0) } }
+pub fn mk_tc() -> TC { TC(7) }
 pub fn mk_ta() -> TA { TA([7; 8]) }
 pub fn mk_tb() -> TB { TB(7) }
 /// After `dst.clone_from(&src)` the destination is a clone of the source in every respect a later operation
